@@ -683,7 +683,7 @@ func (g *G) recursionStmt() []Stmt {
 	g.declare(&Var{Name: name, K: KFn, NoAssign: true, Sig: &FnSig{NP: 2, Ret: KAny, FnParam: -1, Shadow: false}})
 	// do not let other generated code call it with arbitrary depth: mark as shadow-like (uncallable by callOf)
 	g.lookup(name).Sig = nil
-	form := g.pick(3, "recform")
+	form := g.pick(4, "recform")
 	depth := int64(g.intn(0, 6, "recdepth"))
 	var body []Stmt
 	n, acc := "n", "acc"
@@ -709,10 +709,28 @@ func (g *G) recursionStmt() []Stmt {
 		g.f("recursion-nontail")
 		body = append([]Stmt{base}, extra...)
 		body = append(body, &Return{Xs: []Expr{&Binary{Op: "+", L: IntLit(1), R: self(Id(acc))}}})
-	default:
+	case 2:
 		g.f("recursion-discarded-last")
 		body = append([]Stmt{base}, extra...)
 		body = append(body, &ExprStmt{X: self(Id(acc))})
+	default:
+		// one chain mixing the tail-call kinds: `f(..); return` (value discarded), `return f(..)`
+		// and optionally a non-tail step, selected by n
+		g.f("recursion-mixed-tail-kinds")
+		depth = int64(g.intn(1, 9, "mixdepth"))
+		k := int64(g.intn(2, 3, "mixmod"))
+		r := int64(g.intn(0, int(k)-1, "mixrem"))
+		sel := &Binary{Op: "==", L: &Binary{Op: "%", L: Id(n), R: IntLit(k)}, R: IntLit(r)}
+		discard := []Stmt{&ExprStmt{X: self(&Binary{Op: "+", L: Id(acc), R: IntLit(1)})}, &Return{}}
+		if g.chance(30, "mixnoexplicitreturn") {
+			discard = []Stmt{&ExprStmt{X: self(&Binary{Op: "+", L: Id(acc), R: IntLit(1)})}}
+		}
+		body = append([]Stmt{base}, extra...)
+		if g.chance(50, "mixorder") {
+			body = append(body, &If{Cond: sel, Then: discard, HasElse: true, Else: []Stmt{&Return{Xs: []Expr{self(&Binary{Op: "+", L: Id(acc), R: IntLit(1)})}}}})
+		} else {
+			body = append(body, &If{Cond: sel, Then: []Stmt{&Return{Xs: []Expr{self(&Binary{Op: "+", L: Id(acc), R: IntLit(1)})}}}}, &ExprStmt{X: self(&Binary{Op: "+", L: Id(acc), R: IntLit(2)})})
+		}
 	}
 	fl := &FuncLit{Params: []string{n, acc}, Body: body}
 	call := &Call{Fn: Id(name), Args: []Expr{IntLit(depth), IntLit(int64(g.intn(0, 5, "acc0")))}}
